@@ -73,7 +73,7 @@ C(f"{F}:Tokenizer.peek", params=T, returns="Tok", requires=PEEK_REQ,
                      "tk_ok(self)", "can_peek(self)", "implies(old(toks_wf(self)), toks_wf(self))"],
              "nodec_ok": True,
              "havoc": ["self._tokens", "self._tokengen", "self._lines", "self._stack", "self._call_macro", "self._with_macro"]}},
-  raises=["SyntaxError"], properties=["C01", "C03", "C07"])
+  raises=["SyntaxError"], properties=["C01", "C03", "C07", "C11", "C12"])
 
 C(f"{F}:Tokenizer.getnext", params=T, returns="Tok", requires=PEEK_REQ,
   ensures=["self._index == old(self._index) + 1", "self._index <= len(self._tokens)", "result == self._tokens[old(self._index)]",
